@@ -303,66 +303,78 @@ theorem pyTagsScore_perm (l₁ l₂ : List Str) (h : l₁.Perm l₂) : pyTagsSco
 
 /-- without `any` in the set the platform loop is a running maximum, so its result is order independent -/
 def platStep (env : TagEnv) (p : Str) : Option Int :=
-  let q := aliasOf env p
-  match parseManylinux q with
-  | some (a, b, _) => some (((a * 10 + b : Nat) : Int) * 100)
-  | none =>
-    match idxOf? (lowerStr q) env.platTags 0 with
-    | some i => some (((env.platTags.length - i : Nat) : Int) * 100)
-    | none => none
+  if p = "any".toList then some 0
+  else
+    let q := aliasOf env p
+    match parseManylinux q with
+    | some (a, b, _) => some (((a * 10 + b : Nat) : Int) * 100)
+    | none =>
+      match idxOf? (lowerStr q) env.platTags 0 with
+      | some i => some (((env.platTags.length - i : Nat) : Int) * 100)
+      | none => none
 
 def optMax (s : Int) (o : Option Int) : Int := match o with | some v => max s v | none => s
 
 theorem optMax_comm (s : Int) (a b : Option Int) : optMax (optMax s a) b = optMax (optMax s b) a := by
   cases a <;> cases b <;> simp only [optMax] <;> omega
 
-theorem platScoreLoop_noany (env : TagEnv) (l : List Str) (s : Int) (h : "any".toList ∉ l) :
+/-- the loop is a fold of a maximum, `any` included (D45 repaired) -/
+theorem platScoreLoop_fold (env : TagEnv) (l : List Str) (s : Int) :
     platScoreLoop env l s = l.foldl (fun s p => optMax s (platStep env p)) s := by
   induction l generalizing s with
   | nil => rfl
   | cons p ps ih =>
-    have hp : p ≠ "any".toList := fun e => h (by rw [e]; exact List.mem_cons_self)
-    have hps : "any".toList ∉ ps := fun e => h (List.mem_cons_of_mem _ e)
     unfold platScoreLoop
-    simp only [hp, if_false, List.foldl_cons]
-    cases hm : parseManylinux (aliasOf env p) with
-    | some r =>
-      obtain ⟨a, b, c⟩ := r
-      have hs : platStep env p = some (((a * 10 + b : Nat) : Int) * 100) := by
-        simp only [platStep, hm]
-      simp only [hs, optMax]; exact ih _ hps
-    | none =>
-      cases hi : idxOf? (lowerStr (aliasOf env p)) env.platTags 0 with
-      | some i =>
-        have hs : platStep env p = some (((env.platTags.length - i : Nat) : Int) * 100) := by
-          simp only [platStep, hm, hi]
-        simp only [hs, optMax]; exact ih _ hps
+    by_cases hp : p = "any".toList
+    · simp only [hp, if_true, List.foldl_cons, platStep, optMax]; exact ih _
+    · simp only [hp, if_false, List.foldl_cons]
+      cases hm : parseManylinux (aliasOf env p) with
+      | some r =>
+        obtain ⟨a, b, c⟩ := r
+        have hs : platStep env p = some (((a * 10 + b : Nat) : Int) * 100) := by
+          simp only [platStep, hp, if_false, hm]
+        simp only [hs, optMax]; exact ih _
       | none =>
-        have hs : platStep env p = none := by simp only [platStep, hm, hi]
-        simp only [hs, optMax]; exact ih _ hps
+        cases hi : idxOf? (lowerStr (aliasOf env p)) env.platTags 0 with
+        | some i =>
+          have hs : platStep env p = some (((env.platTags.length - i : Nat) : Int) * 100) := by
+            simp only [platStep, hp, if_false, hm, hi]
+          simp only [hs, optMax]; exact ih _
+        | none =>
+          have hs : platStep env p = none := by simp only [platStep, hp, if_false, hm, hi]
+          simp only [hs, optMax]; exact ih _
 
-theorem platScoreLoop_perm (env : TagEnv) (l₁ l₂ : List Str) (h : l₁.Perm l₂) (hany : "any".toList ∉ l₁) (s : Int) :
+theorem platScoreLoop_perm (env : TagEnv) (l₁ l₂ : List Str) (h : l₁.Perm l₂) (s : Int) :
     platScoreLoop env l₁ s = platScoreLoop env l₂ s := by
-  have hany2 : "any".toList ∉ l₂ := fun e => hany (h.mem_iff.2 e)
-  rw [platScoreLoop_noany env l₁ s hany, platScoreLoop_noany env l₂ s hany2]
-  clear hany hany2
+  rw [platScoreLoop_fold env l₁ s, platScoreLoop_fold env l₂ s]
   induction h generalizing s with
   | nil => rfl
   | cons x _ ih => simp only [List.foldl_cons]; exact ih _
   | swap x y l => simp only [List.foldl_cons]; rw [optMax_comm]
   | trans _ _ ih1 ih2 => rw [ih1, ih2]
 
-/-- **platScore_perm_partial**: the platform score of a tag set without `any` is independent of the
-set's iteration order -/
-theorem platScore_perm_partial (env : TagEnv) (l₁ l₂ : List Str) (h : l₁.Perm l₂) (hany : "any".toList ∉ l₁) :
+/-- **platScore_perm**: the platform score of a tag set is independent of the set's iteration order — for every tag
+set, `any` included -/
+theorem platScore_perm (env : TagEnv) (l₁ l₂ : List Str) (h : l₁.Perm l₂) :
     platScore env l₁ = platScore env l₂ := by
   unfold platScore
-  rw [platScoreLoop_perm env l₁ l₂ h hany, h.length_eq]
+  rw [platScoreLoop_perm env l₁ l₂ h, h.length_eq]
 
-/-- with `any` next to a specific platform the score depends on the iteration order of the set
-(`plat_score = 0` is an assignment, not a maximum) -/
+/-- the statement kept from before the repair, now a corollary -/
+theorem platScore_perm_partial (env : TagEnv) (l₁ l₂ : List Str) (h : l₁.Perm l₂) (_hany : "any".toList ∉ l₁) :
+    platScore env l₁ = platScore env l₂ := platScore_perm env l₁ l₂ h
+
+/-- D45 (repaired in /repo): `any` next to a specific platform used to reset the score (`plat_score = 0` was an
+assignment): the score depended on the iteration order of the platform *set*, i.e. on the hash seed.  `oldLoop` is
+that reading. -/
+def oldLoop (env : TagEnv) : List Str → Int → Int
+  | [], s => s
+  | p :: ps, s => if p = "any".toList then oldLoop env ps 0 else oldLoop env ps (optMax s (platStep env p))
+
 theorem platScore_any_order_witness :
-    platScore Gen.hereEnv ["any".toList, "manylinux1_x86_64".toList] ≠
+    oldLoop Gen.hereEnv ["any".toList, "manylinux1_x86_64".toList] (-1) ≠
+    oldLoop Gen.hereEnv ["manylinux1_x86_64".toList, "any".toList] (-1) ∧
+    platScore Gen.hereEnv ["any".toList, "manylinux1_x86_64".toList] =
     platScore Gen.hereEnv ["manylinux1_x86_64".toList, "any".toList] := by
   decide +kernel
 
